@@ -2223,6 +2223,9 @@ class Engine:
         pre = cst.snapshot()
         pre.pc = []
         for hk in c.modifies:
+            if self.cur_contract is not None and hk not in self.cur_contract.modifies:
+                # the caller's own frame does not allow this write: the call must be unreachable
+                self.emit(st, z3.BoolVal(False), f"frame.{hk}", text=f"{self.cur_contract.name} does not list {hk} in `modifies`: the call of {c.name} (which may write it) must be unreachable")
             rname, fname = hk.split(".")
             rec = self.tenv.records[rname]
             _, srt = self.pre.field(rec, fname)
